@@ -21,28 +21,41 @@ def expected(T, tok, method):
     return feat.rng_of(T, b.creator_type.name_tok) if b.creator_type is not None else None
 
 
-def check_doc(part, sess, P, text, T, rng, max_ids):
+def known_alternative(P, T, tk, m, pm, type_names):
+    """(finding id, the answer the known defect produces) for the two known input classes, else None"""
+    loc = feat.shadowing_local(P, tk, pm)
+    if loc is not None:
+        fake = gen.Tok("id", tk.text, role="use", bind=loc)
+        return ("K-C12-1", expected(T, fake, m))
+    b = tk.bind
+    if m == "typeDefinition" and isinstance(b, gen.Decl) and b.kind in ("var", "param") and isinstance(b.ty, gen.ArrT) and b.creator_type is None and b.name in type_names:
+        return ("K-C12-2", feat.rng_of(T, type_names[b.name].name_tok))
+    return None
+
+
+def check_doc(part, sess, P, text, T, rng, max_ids, open_ids=frozenset()):
     uri = sess.open(text, "c12_")
     ids = feat.idents(P)
+    pm = feat.proc_of_tokens(P); type_names = {t.name: t for t in P.types}
     sample = ids if len(ids) <= max_ids else rng.sample(ids, max_ids)
     queries = []
     for tk in sample:
         for (l, c) in feat.columns(rng, T, tk, rng.choice(["f", "m", "l", "fml"])):
             for m in METHODS:
                 queries.append((m, l, c, expected(T, tk, m), "identifier %r (%s, bound to %s)" % (tk.text, tk.role, tk.bind.kind if isinstance(tk.bind, gen.Decl) else tk.bind),
-                                (tk.bind.kind if isinstance(tk.bind, gen.Decl) else "predefined", tk.role)))
+                                (tk.bind.kind if isinstance(tk.bind, gen.Decl) else "predefined", tk.role), known_alternative(P, T, tk, m, pm, type_names)))
     # non-identifier positions: keywords, symbols, literals, comments, white space, beyond the text
     others = [t for t in P.toks if t.kind != "id"]
     for tk in rng.sample(others, min(len(others), max(2, len(sample) // 5))):
         l, c = T.pos(tk.start)
-        for m in METHODS: queries.append((m, l, c, None, "%s token %r" % (tk.kind, tk.text[:12]), ("non-identifier", tk.kind)))
+        for m in METHODS: queries.append((m, l, c, None, "%s token %r" % (tk.kind, tk.text[:12]), ("non-identifier", tk.kind), None))
     for tk in rng.sample(P.toks, min(3, len(P.toks))):
         if tk.pre and tk.start > 0:
             l, c = T.pos(tk.start - 1)
             if text.encode()[tk.start - 1:tk.start] in (b" ", b"\t"):
-                for m in METHODS: queries.append((m, l, c, None, "white space", ("non-identifier", "ws")))
-    queries.append(("declaration", T.nlines() + 5, 0, None, "line beyond the text", ("non-identifier", "beyond")))
-    for m, l, c, exp, what, cls in queries:
+                for m in METHODS: queries.append((m, l, c, None, "white space", ("non-identifier", "ws"), None))
+    queries.append(("declaration", T.nlines() + 5, 0, None, "line beyond the text", ("non-identifier", "beyond"), None))
+    for m, l, c, exp, what, cls, alt in queries:
         sc = {"kind": "goto", "text": text, "method": m, "line": l, "character": c, "expected": exp, "what": what}
         res = sess.result(METHODS[m], tdp(uri, l, c))
         part.ev()
@@ -53,7 +66,9 @@ def check_doc(part, sess, P, text, T, rng, max_ids):
             if not isinstance(res, dict) or res.get("uri") != uri:
                 part.fail("%s on %s at %d:%d: malformed location %r" % (m, what, l, c, res), sc); continue
             got = res["range"]
-        if got != exp:
+        if got != exp and alt is not None and alt[0] in open_ids and got == alt[1]:
+            part.known(alt[0], "known class"); part.add("known_classes_seen", "%s/%s" % (alt[0], m))
+        elif got != exp:
             part.fail("%s on %s at %d:%d answers %r, expected %r" % (m, what, l, c, got, exp), sc)
         else:
             part.see((m,) + cls + (exp is not None,))
@@ -62,13 +77,13 @@ def check_doc(part, sess, P, text, T, rng, max_ids):
 
 
 def worker(args):
-    seed, nprog, max_ids = args
+    seed, nprog, max_ids, open_ids = args
     rng = random.Random("C12/%s" % seed)
     part = Part(); sess = feat.Session()
     for it in range(nprog):
         P, text, T = feat.program(rng)
         try:
-            check_doc(part, sess, P, text, T, rng, max_ids)
+            check_doc(part, sess, P, text, T, rng, max_ids, open_ids)
             if it == 0: part.sample({"part": "go-to", "text": text[:300], "identifiers": len(feat.idents(P))}, 1)
         except (ServerDied, Timeout, FrameError) as e:
             feat.died(part, e, "go-to request", {"kind": "doc", "text": text}, sess)
@@ -79,13 +94,32 @@ def worker(args):
 def run(ctx):
     server_bin("rel")
     nprog, mi = (25, 25) if ctx.quick else (1500, 80)
-    for p in pmap(worker, [("%s/%d" % (ctx.seed, i), nprog, mi) for i in range(NCPU)]): ctx.merge(p)
+    open_ids = frozenset(f["id"] for f in ctx.open_findings())
+    replay_witnesses(ctx)
+    for p in pmap(worker, [("%s/%d" % (ctx.seed, i), nprog, mi, open_ids) for i in range(NCPU)]): ctx.merge(p)
     ctx.rule = ("well-typed generated programs (any order of declarations, doc comments, same local names in several procedures, locals hiding global procedures); every sampled identifier "
                 "occurrence x cursor column (first/middle/last) x the four go-to methods, plus non-identifier tokens, white space and positions beyond the text; "
                 "distinct_nontrivial = distinct (method, binding kind, occurrence role, answer is a location) classes answered as expected")
     ctx.assumptions = ["bindings and types are known by construction of the generator (harness/gen.py)"]
     ctx.floor("evaluations", ctx.evaluations, 5000)
     ctx.floor("non-null answers", ctx.extra.get("counters", {}).get("non_null_answers", 0), 1000)
+
+
+def replay_witnesses(ctx):
+    import json, os
+    from ..core import VERIF
+    sess = feat.Session()
+    for f in ctx.open_findings():
+        w = json.load(open(os.path.join(VERIF, f["witness"])))["scenario"]
+        try:
+            uri = sess.open(w["text"], "c12w_")
+            res = sess.result(METHODS[w["method"]], tdp(uri, w["line"], w["character"])); ctx.count(); sess.close(uri)
+            got = res.get("range") if isinstance(res, dict) and "__error__" not in res else res
+            if got != w["expected"]: ctx.known(f["id"], f["what"])
+            else: ctx.extra.setdefault("witnesses_no_longer_failing", []).append(f["id"])
+        except (ServerDied, Timeout, FrameError):
+            ctx.known(f["id"], f["what"]); sess.kill()
+    sess.kill()
 
 
 def replay(ctx, sc):
